@@ -301,6 +301,14 @@ def run(ck):
                 ck.fail_input(sig + (":job_id-key" if j == 3 else ""), what + " (scenario %d: %s)" % (j, names[j]),
                               {"kind": "chained", "scenario": j, "jobs": [cj, cj, cj[:1], collide, many][j]})
         ck.notes["chained_callback_scenarios"] = len(chained["chained"])
+    # ---- contexts of every accepted kind (plain, none, a collection context with one context per data element)
+    kinds, kerr = core.run_impl(DRIVER, (), {"context_kinds": True}, 120)
+    if kinds is None or "error" in kinds:
+        ck.corr_problem("context-kinds scenario did not complete", str(kerr or kinds.get("error"))[-1200:])
+    else:
+        for sig, what in kinds["problems"]:
+            ck.fail_input(sig, what, {"kind": "context-kinds"})
+        ck.notes["context_kind_jobs"] = 5
     results = [None] * len(batches)
     files = None
     for c, (res, err) in zip(chunks, outs):
